@@ -704,7 +704,14 @@ let run_own_case (oc : out_channel) (c : case) : unit =
   let rel_str (l : nat list) : string =
     " | rel" ^ String.concat "" (List.map (fun v -> " " ^ string_of_int v) (List.sort compare (List.map val_of l))) in
   let node_in s = match Hashtbl.find_opt kinds s with Some (KNode u) -> u | _ -> failwith "slot does not hold a node" in
-  let put s owned kind = let (st', rel) = put_slot !st (nat_of_int s) owned in st := st'; Hashtbl.replace kinds s kind; rel in
+  (* every ledger step goes through the model's API layer (Own.astep / aop): what an object owns is decided THERE *)
+  let apply (a : (n, n) aop) = let (st', rel) = astep !st a in st := st'; rel in
+  let put s kind =
+    let sn = nat_of_int s in
+    let a = match kind with
+      | KNode u -> ANode (sn, u) | KEdge e -> AEdge (sn, e) | KPath p -> APath (sn, p)
+      | KNodes l -> ANodes (sn, l) | KGraph g -> AGraph (sn, g) in
+    let rel = apply a in Hashtbl.replace kinds s kind; rel in
   let released u = is_released !st u in
   let kv u = Printf.sprintf "%s:%d" (key_str (!st).o_heap u) (val_of u) in
   let deg u = int_of_nat (out_degree (!st).o_heap u) + int_of_nat (in_degree (!st).o_heap u) in
@@ -722,7 +729,7 @@ let run_own_case (oc : out_channel) (c : case) : unit =
           let u = size (!st).o_heap in
           let (st', rel) = o_new !st (nat_of_int s) (n_of_int (ios stp.(2))) (z_of_int (ios stp.(3))) in
           st := st'; Hashtbl.replace kinds s (KNode u); ("ok", rel)
-      | "oclone" -> let u = node_in (ios stp.(2)) in ("ok", put (ios stp.(1)) [u] (KNode u))
+      | "oclone" -> let u = node_in (ios stp.(2)) in ("ok", put (ios stp.(1)) (KNode u))
       | "ocon" ->
           let (h1, _) = step (!st).o_heap (OConnect (node_in (ios stp.(1)), node_in (ios stp.(2)), n_of_int (ios stp.(3)))) in
           set_heap_ h1; ("ok", [])
@@ -744,8 +751,8 @@ let run_own_case (oc : out_channel) (c : case) : unit =
           set_heap_ h1; (outcome_str r, [])
       | "odrop" ->
           let s = ios stp.(1) in
-          let (st', rel) = drop_slot !st (nat_of_int s) in
-          st := st'; Hashtbl.remove kinds s; ("ok", rel)
+          let rel = apply (ADrop (nat_of_int s)) in
+          Hashtbl.remove kinds s; ("ok", rel)
       | "oedge" ->
           let u = node_in (ios stp.(2)) and pos = ios stp.(3) in
           let l = adjl u in
@@ -754,7 +761,7 @@ let run_own_case (oc : out_channel) (c : case) : unit =
           if List.exists (fun (v, _) -> released v) seen then ("panic", [])
           else (match List.nth_opt l pos with
                 | Some (v, e) ->
-                    let rel = put (ios stp.(1)) [u; v] (KEdge ((u, v), e)) in
+                    let rel = put (ios stp.(1)) (KEdge ((u, v), e)) in
                     ("edge " ^ fmt_edge (!st).o_heap u v e, rel)
                 | None -> ("none", []))
       | "opath" | "ofind" ->
@@ -765,11 +772,11 @@ let run_own_case (oc : out_channel) (c : case) : unit =
           else (match r with
                 | RPath p ->
                     if stp.(0) = "opath" then
-                      let rel = put (ios stp.(1)) (path_owns p) (KPath p) in
+                      let rel = put (ios stp.(1)) (KPath p) in
                       ("path " ^ String.concat "" (List.map (fun ((a, b), e) -> fmt_edge (!st).o_heap a b e) p), rel)
                     else
                       let v = (match List.rev p with ((_, b), _) :: _ -> b | [] -> u) in
-                      let rel = put (ios stp.(1)) [v] (KNode v) in
+                      let rel = put (ios stp.(1)) (KNode v) in
                       ("node " ^ key_str (!st).o_heap v, rel)
                 | RNone -> ("none", [])
                 | _ -> ("panic", []))
@@ -779,24 +786,24 @@ let run_own_case (oc : out_channel) (c : case) : unit =
           (match order_nodes keqb recorder d post big_fuel (!st).o_heap cb0 u with
            | (stt, Some l) ->
                if trace_dangling stt.s_cb then ("panic", [])
-               else let rel = put (ios stp.(1)) l (KNodes l) in
+               else let rel = put (ios stp.(1)) (KNodes l) in
                     ("nodes " ^ keys_of (!st).o_heap l, rel)
            | (_, None) -> ("fuel", []))
-      | "ogra" -> ("ok", put (ios stp.(1)) [] (KGraph []))
+      | "ogra" -> ("ok", put (ios stp.(1)) (KGraph []))
       | "ogins" ->
           let gs = ios stp.(1) in
           let u = node_in (ios stp.(2)) in
           (match Hashtbl.find_opt kinds gs with
            | Some (KGraph g) ->
                let (g', b) = g_insert keqb (!st).o_heap g u in
-               if b then begin st := grow_slot !st (nat_of_int gs) u; Hashtbl.replace kinds gs (KGraph g') end;
-               (Printf.sprintf "ok %d" (b2i b), [])
+               let rel = if b then put gs (KGraph g') else [] in
+               (Printf.sprintf "ok %d" (b2i b), rel)
            | _ -> failwith "not a graph")
       | "ogget" ->
           (match Hashtbl.find_opt kinds (ios stp.(2)) with
            | Some (KGraph g) ->
                (match g_get keqb g (n_of_int (ios stp.(3))) with
-                | Some u -> let rel = put (ios stp.(1)) [u] (KNode u) in ("node " ^ key_str (!st).o_heap u, rel)
+                | Some u -> let rel = put (ios stp.(1)) (KNode u) in ("node " ^ key_str (!st).o_heap u, rel)
                 | None -> ("none", []))
            | _ -> failwith "not a graph")
       | "ogrem" ->
@@ -807,10 +814,9 @@ let run_own_case (oc : out_channel) (c : case) : unit =
                (match r with
                 | Some u ->
                     (* the node moves from the container into the slot: first the slot owns it, then the container lets go *)
-                    let rel = put (ios stp.(1)) [u] (KNode u) in
-                    st := { !st with o_objs = List.map (fun (s, l) -> if int_of_nat s = gs then (s, remove_one u l) else (s, l)) (!st).o_objs };
-                    Hashtbl.replace kinds gs (KGraph g');
-                    ("node " ^ key_str (!st).o_heap u, rel)
+                    let rel = put (ios stp.(1)) (KNode u) in
+                    let rel2 = put gs (KGraph g') in
+                    ("node " ^ key_str (!st).o_heap u, rel @ rel2)
                 | None -> ("none", []))
            | _ -> failwith "not a graph")
       | "ouse" ->
